@@ -343,8 +343,12 @@ func (d UDist) PMF(U float64) float64 {
 		return (p2 - p1) / mathChoose(d.N1+d.N2, d.N1)
 	}
 
-	// There are no ties. Use the fast algorithm. U must be integral.
-	Ui := int(math.Floor(U))
+	// There are no ties. Use the fast algorithm. U is integral, so
+	// the half-integer points of the Step() grid have no mass.
+	if U = math.Floor(2*U) / 2; U != math.Floor(U) {
+		return 0
+	}
+	Ui := int(U)
 	// TODO: Use symmetry to minimize U
 	return d.p(Ui)[Ui]
 }
